@@ -446,9 +446,13 @@ def mask_selection(mask):
         return got
     n = mask.shape[0]
     name = _V.fresh_name("msel")
-    cnt = Sym(z3.Int(name + "_count"))
-    self_f = z3.Function(name + "_row", z3.IntSort(), z3.IntSort())
-    inv_f = z3.Function(name + "_inv", z3.IntSort(), z3.IntSort())
+    la = _V.loop_args()          # inside a summarised loop the selection is a Skolem function of the iteration
+    ls = [z3.IntSort()] * len(la)
+    cnt = Sym(z3.Function(name + "_count", *ls, z3.IntSort())(*la)) if la else Sym(z3.Int(name + "_count"))
+    sf = z3.Function(name + "_row", *ls, z3.IntSort(), z3.IntSort())
+    vf = z3.Function(name + "_inv", *ls, z3.IntSort(), z3.IntSort())
+    self_f = lambda x: sf(*la, x)
+    inv_f = lambda x: vf(*la, x)
     j, i = z3.Int(name + "!j"), z3.Int(name + "!i")
     mf = mask.snapshot()
 
@@ -458,12 +462,12 @@ def mask_selection(mask):
     p = _V.PATH[0]
     if p is not None:
         nn = _V.lift(n)
-        p.conds.append(z3.And(cnt.t >= 0, cnt.t <= nn))
-        p.conds.append(z3.ForAll([j], z3.Implies(z3.And(j >= 0, j < cnt.t),
-                                                 z3.And(self_f(j) >= 0, self_f(j) < nn, mterm(self_f(j))))))
-        p.conds.append(z3.ForAll([j], z3.Implies(z3.And(j >= 0, j + 1 < cnt.t), self_f(j) < self_f(j + 1))))
-        p.conds.append(z3.ForAll([i], z3.Implies(z3.And(i >= 0, i < nn, mterm(i)),
-                                                 z3.And(inv_f(i) >= 0, inv_f(i) < cnt.t, self_f(inv_f(i)) == i))))
+        p.assume(Sym(z3.And(cnt.t >= 0, cnt.t <= nn)))
+        p.assume(Sym(z3.ForAll([j], z3.Implies(z3.And(j >= 0, j < cnt.t),
+                                               z3.And(self_f(j) >= 0, self_f(j) < nn, mterm(self_f(j)))))))
+        p.assume(Sym(z3.ForAll([j], z3.Implies(z3.And(j >= 0, j + 1 < cnt.t), self_f(j) < self_f(j + 1)))))
+        p.assume(Sym(z3.ForAll([i], z3.Implies(z3.And(i >= 0, i < nn, mterm(i)),
+                                               z3.And(inv_f(i) >= 0, inv_f(i) < cnt.t, self_f(inv_f(i)) == i)))))
     sel = (cnt, lambda jj: Sym(self_f(_V.lift(jj))), lambda ii: Sym(inv_f(_V.lift(ii))))
     try:
         mask._selection = sel
